@@ -124,6 +124,13 @@ pub fn check_cell(sub: &str, expr: &str, doc_text: &str, st: &mut Stats) -> Case
         Ok(_) => "Ok".into(),
         Err(EvalErr::Unspecified(_)) => {
             st.class("cell:unspecified");
+            // whatever an implementation does where the specification is silent: a value
+            // that comes back is still of the function's declared result type
+            if let ImpOut::Ok(g) = &got {
+                if !result_type_ok(&name, &argvals, g) {
+                    return Err(Failure::new(sub, &format!("{}:result-outside-declared-type", name), format!("{} returned {}", expr, g.to_json()), case));
+                }
+            }
             return Ok(());
         }
         Err(e) => e.class().to_string(),
@@ -241,6 +248,19 @@ fn table(env: &Env, st: &mut Stats) -> Vec<Failure> {
         }
         st.nontrivial(&expr);
     }
+    // near misses of every registered name, called with arguments the real function would accept
+    for (k, sig) in SIGS.iter().enumerate() {
+        for (j, name) in near_miss_names(sig.name).into_iter().enumerate() {
+            let bytes = seeded_bytes(env.seed, 0xFFFE_0000 + (k * 64 + j) as u64, 400);
+            let mut src = Src::new(&bytes);
+            let (expr, doc) = well_typed_call(&mut src, sig, &name);
+            if let Err(f) = check_cell("table", &expr, &doc, st) {
+                fails.lock().unwrap().push(f);
+            }
+            st.nontrivial(&expr);
+            st.class("near-miss-name");
+        }
+    }
     fails.into_inner().unwrap()
 }
 
@@ -347,11 +367,8 @@ fn call_sequences(src: &mut Src, st: &mut Stats, _env: &Env) -> CaseResult {
 /// Calls whose arguments satisfy the signature, with arbitrary representatives
 /// of each accepted type (strings that look like numbers or other JSON texts
 /// included): never a signature error, result inside the declared type.
-fn well_typed(src: &mut Src, st: &mut Stats, _env: &Env) -> CaseResult {
+fn well_typed_call(src: &mut Src, sig: &crate::refeval::Sig, name: &str) -> (String, String) {
     use crate::gen_typed::gen_value_of;
-    use crate::refeval::SIGS;
-    let plain: Vec<&crate::refeval::Sig> = SIGS.iter().filter(|s| !s.params.iter().any(|p| p.contains(&Ty::Expref))).collect();
-    let sig = plain[src.below(plain.len())];
     let mut doc = std::collections::BTreeMap::new();
     let mut args = vec![];
     let mut n = sig.params.len();
@@ -361,7 +378,11 @@ fn well_typed(src: &mut Src, st: &mut Stats, _env: &Env) -> CaseResult {
     for i in 0..n {
         let tys: &[Ty] = if i < sig.params.len() { sig.params[i] } else { sig.variadic.unwrap() };
         let t = tys[src.below(tys.len())];
-        let mut v = gen_value_of(src, t);
+        if t == Ty::Expref {
+            args.push("&n".to_string());
+            continue;
+        }
+        let mut v = if i > 0 && matches!(sig.name, "sort_by" | "max_by" | "min_by" | "map") { gen_value_of(src, Ty::ArrayNumber) } else { gen_value_of(src, t) };
         if matches!(v, J::Str(_)) && matches!(sig.name, "to_number" | "to_string" | "to_array" | "type" | "not_null" | "length" | "reverse") && src.chance(100) {
             // text that is (almost) a JSON value: what comes back must still be of the declared type
             v = J::Str(crate::gen_doc::gen_jsonish(src));
@@ -377,14 +398,61 @@ fn well_typed(src: &mut Src, st: &mut Stats, _env: &Env) -> CaseResult {
         }
     }
     doc.insert("pad".to_string(), J::int(1));
-    let expr = format!("{}({})", sig.name, args.join(", "));
-    let dt = J::Obj(doc).to_json();
+    (format!("{}({})", name, args.join(", ")), J::Obj(doc).to_json())
+}
+
+/// Calls whose arguments satisfy the signature, with arbitrary representatives
+/// of each accepted type (strings that look like numbers or other JSON texts
+/// included): never a signature error, result inside the declared type.
+fn well_typed(src: &mut Src, st: &mut Stats, _env: &Env) -> CaseResult {
+    use crate::refeval::SIGS;
+    let plain: Vec<&crate::refeval::Sig> = SIGS.iter().filter(|s| !s.params.iter().any(|p| p.contains(&Ty::Expref))).collect();
+    let sig = plain[src.below(plain.len())];
+    let (expr, dt) = well_typed_call(src, sig, sig.name);
     st.eval();
     check_cell("well-typed", &expr, &dt, st)?;
     if st.nontrivial(&format!("{}\u{0}{}", expr, dt)) {
         st.sample(|| json!({"expression": expr, "document": dt}));
     }
     Ok(())
+}
+
+/// Names one small edit away from a registered name, in every naming
+/// convention: none of them is registered.
+pub fn near_miss_names(name: &str) -> Vec<String> {
+    let mut out: Vec<String> = vec![];
+    let cs: Vec<char> = name.chars().collect();
+    let cap = |w: &str| -> String {
+        let mut c = w.chars();
+        match c.next() {
+            Some(f) => f.to_uppercase().collect::<String>() + c.as_str(),
+            None => String::new(),
+        }
+    };
+    let words: Vec<&str> = name.split('_').collect();
+    out.push(cap(name));
+    out.push(name.to_uppercase());
+    out.push(words.iter().enumerate().map(|(i, w)| if i == 0 { w.to_string() } else { cap(w) }).collect::<String>()); // camelCase
+    out.push(words.iter().map(|w| cap(w)).collect::<String>()); // PascalCase
+    out.push(words.join("")); // nounderscore
+    out.push(words.join("__"));
+    out.push(words.iter().map(|w| cap(w)).collect::<Vec<_>>().join("_"));
+    out.push(format!("{}_", name));
+    out.push(format!("_{}", name));
+    out.push(format!("{}s", name));
+    out.push(format!("{}2", name));
+    out.push(format!("jmespath_{}", name));
+    if cs.len() > 1 {
+        out.push(cs[..cs.len() - 1].iter().collect());
+        out.push(cs[1..].iter().collect());
+        let mut sw = cs.clone();
+        sw.swap(0, 1);
+        out.push(sw.iter().collect());
+    }
+    out.sort();
+    out.dedup();
+    out.retain(|n| crate::refeval::sig_of(n).is_none() && !n.is_empty() && n != name);
+    out
 }
 
 fn replay_cell(case: &Value, _env: &Env) -> CaseResult {
